@@ -151,6 +151,11 @@ class Playback(BaseEngine):
             delays = [pick(rng, (0.0, 0.0, 0.001, 0.5, 5.0)) for _ in range(5)]
         else:
             delays = ['to_next']
+        bystander = None
+        if rng.random() < 0.2:
+            bystander = {'tpb': pick(rng, TPBS), 'tracks': [[[pick(rng, DELTAS), 'tempo', pick(rng, TEMPOS)],
+                                                             [pick(rng, DELTAS), 'note', 1], [pick(rng, DELTAS), 'note', 2]]
+                                                            for _ in range(rng.randint(1, 2))]}
         second = None
         if rng.random() < 0.35:
             second = {'mutate_yielded': rng.random() < 0.7,
@@ -159,7 +164,7 @@ class Playback(BaseEngine):
                       'pick': rng.randrange(1000)}
         return {'prop': prop, 'type': ftype, 'tpb': tpb, 'tracks': tracks, 'clock': clock,
                 'delays': delays, 'abandon_after': pick(rng, (None, None, None, 0, 1, 3)),
-                'meta_messages': rng.random() < 0.4, 'second': second}
+                'meta_messages': rng.random() < 0.4, 'second': second, 'bystander': bystander}
 
     # ------------------------------------------------------------ execution
     def abort_cleanup(self):
@@ -296,6 +301,18 @@ class Playback(BaseEngine):
                     stats['probe:tempo_zero'] += 1
         if any(e[1] == 'tempo' for tr in plan['tracks'][1:] for e in tr):
             stats['probe:tempo_change_in_second_track'] += 1
+        # ---- another, unrelated file is iterated in the same process before ours is played
+        by = plan.get('bystander')
+        if by:
+            btracks = [mido.MidiTrack(build_msg(e[1:], e[0]) for e in tr) for tr in by['tracks']]
+            bmf = mido.MidiFile(type=1, ticks_per_beat=by['tpb'], tracks=btracks)
+            bplan = dict(plan, tpb=by['tpb'])
+            bsnap = [[(m.type, m.time) for m in tr] for tr in btracks]
+            try:
+                self._check_iter_length(bmf, self._model(bplan, btracks), btracks, bsnap, log, [0.0], 'bystander')
+            except Violation as v:
+                raise Violation('bystander:' + v.sig, 'a second, unrelated file iterated in between: ' + v.msg)
+            stats['fault:other_file_in_between'] += 1
         # ---- play() on the simulated clock
         self._play(plan, mf, model, log, stats)
         # ---- the same object observed again: after the consumer edited what it was handed, and/or after an edit
